@@ -194,7 +194,7 @@ def job_bodies(job):
             # long pumps only for bodies that a 600-iteration pump finds alive, with a constant number of live streams and
             # on a plateau: a table that grows (the known reserved-stream finding, bodies that open without closing)
             # makes every step linear in its size, 200,000 iterations quadratic, and is reported by the short pump already
-            pre = job_bodies({"client": client, "bodies": [body], "N": 600, "small": small})
+            pre = job_bodies({"client": client, "bodies": [body], "N": 600, "small": small, "ignore_closed_memory": True})
             n += pre["evaluations"]
             if pre["violations"] or "pump:survived-plateau-judged" not in pre["outcomes"]:
                 for v in pre["violations"]:
@@ -236,6 +236,9 @@ def job_bodies(job):
             if constant_live:
                 nt += 1
                 key = "survived-plateau-judged"
+                if job.get("ignore_closed_memory"):
+                    # (pre-check of a long pump with the real cap: the closed-stream memory may still be filling up)
+                    end, half = end[:1] + end[2:], half[:1] + half[2:]
                 if end != half:
                     fields = ["streams", "closed_streams", "input_buffer", "header_frames", "output_buffer", "decoder_table", "encoder_table"]
                     grew = [f for f, a, b in zip(fields, half, end) if b > a]
